@@ -439,6 +439,9 @@ class Check:
         if len(impl) != len(model):
             raise BuildError("answer count mismatch impl=%d model=%d" % (len(impl), len(model)))
         for i, (a, b) in enumerate(zip(impl, model)):
+            if b == "skip":
+                self.corr["not_modelled"] = self.corr.get("not_modelled", 0) + 1
+                continue
             self.corr["cases"] += 1
             ok, w = same_answer(a, b, max_ulp, rel, abs_tol)
             if ok:
